@@ -547,38 +547,276 @@ def rng_balanced(p, res):
 
 
 # ------------------------------------------------------------- OWN-RAWPUSH
-RAW_PUSH_OK = {
-    # function : set of argument shapes that are known to be newline-free or are the newline emitter itself
-    'output_stream.OutputStream.push_string': {'line'},
-    'output_stream.OutputStream.push_newline': {"'%s%s' % (newline, base_indent)"},
-    'output_stream.OutputStream.push_indent': {'indent * max(size, 0)'},
-    'markup.format.indent_format.push_value': {"' '", 'before', "' ' * (max_length - line_lengths[i])", 'after'},
-    'stylesheet.format.css_property': {"','", "config.options.get('stylesheet.after')"},
-    'stylesheet.format.css_property_value': {'frac(num.value)', 'quote', "', '"},
-    'stylesheet.format.output_important': {"' '", "'!important'"},
-    'stylesheet.format.output_value': {"' '"},
-    'stylesheet.format.output_token': {"color(token, config.options.get('stylesheet.shortHex'))", "token.name + '('", "', '", "')'"},
-}
+# Option values that are single-line by their documented meaning (a user who puts a line break into one of them gets
+# what they asked for); keyed by option name, not by the text of the call site.
+SINGLE_LINE_OPTIONS = {'output.indent', 'stylesheet.after', 'stylesheet.between', 'stylesheet.jsonDoubleQuotes', 'stylesheet.shortHex',
+                       'beforeTextLine', 'afterTextLine', 'beforeName', 'afterName', 'selfClose', 'booleanValue', 'glueAttribute',
+                       'beforeAttribute', 'afterAttribute'}
+# Attributes that hold text written by the user of the abbreviation or of a template: may contain any character.
+TEXT_ATTRS = {'before', 'after', 'value', 'text'}
+NUMERIC_FORMATTERS = {'stylesheet.color.frac': 'formats one number with a fixed number of digits'}
+
+
+class _Lines:
+    """may the value of an expression contain a line break?  'free' (proved not), 'text' (it is text supplied from outside),
+    'unknown'.  A flow-insensitive classification over single-assignment locals, loop variables and callee returns."""
+
+    def __init__(self, p):
+        self.p = p
+        self.busy = set()
+        self.fcache = {}
+
+    def join(self, kinds):
+        kinds = list(kinds)
+        if 'text' in kinds:
+            return 'text'
+        if 'unknown' in kinds:
+            return 'unknown'
+        return 'free'
+
+    def func_returns(self, g):
+        if g.short in NUMERIC_FORMATTERS:
+            return 'free'
+        if g.qualname in self.fcache:
+            return self.fcache[g.qualname]
+        if g.qualname in self.busy:
+            return 'unknown'
+        self.busy.add(g.qualname)
+        try:
+            rets = [n.value for n in g.body_nodes() if isinstance(n, ast.Return) and n.value is not None]
+            k = self.join(self.expr(g, r) for r in rets) if rets else 'unknown'
+        finally:
+            self.busy.discard(g.qualname)
+        self.fcache[g.qualname] = k
+        return k
+
+    def numeric_field(self, c, attr):
+        """field `attr` of class c only ever receives numbers: it is set in __init__ from a parameter (or a numeric constant) and
+        every constructor call in the package passes int()/float()/a numeric constant for it (or leaves a numeric default)"""
+        key = (c.qualname, attr)
+        if key in self.fcache:
+            return self.fcache[key]
+        self.fcache[key] = False
+        init = c.methods.get('__init__')
+        ok = False
+        if init is not None:
+            srcs = [n.value for n in init.body_nodes() if isinstance(n, ast.Assign) and src_of(n.targets[0]) == 'self.' + attr]
+            writers = [n for g in self.p.funcs.values() if g is not init for n in g.body_nodes()
+                       if isinstance(n, (ast.Assign, ast.AugAssign)) and any(isinstance(t, ast.Attribute) and t.attr == attr and self.p.type_of(g, t.value) is c
+                                                                             for t in (n.targets if isinstance(n, ast.Assign) else [n.target]))]
+            if len(srcs) == 1 and not writers:
+                params = [x.id for x in ast.walk(srcs[0]) if isinstance(x, ast.Name)]
+                consts = [x for x in ast.walk(srcs[0]) if isinstance(x, ast.Constant) and x.value is not None]
+                if len(set(params)) == 1 and params[0] in init.params and all(isinstance(x.value, (int, float)) for x in consts):
+                    ix = init.params.index(params[0]) - 1
+                    dflt = init.defaults.get(params[0])
+                    ok = True
+                    from .. import callgraph
+                    n_sites = 0
+                    for g in self.p.funcs.values():
+                        for n in g.body_nodes():
+                            if isinstance(n, ast.Call) and self.p.resolve_call(g, n) is c:
+                                n_sites += 1
+                                a = n.args[ix] if ix < len(n.args) else next((k.value for k in n.keywords if k.arg == params[0]), None)
+                                if a is None:
+                                    if not (dflt is None or (isinstance(dflt, ast.Constant) and (dflt.value is None or isinstance(dflt.value, (int, float))))):
+                                        ok = False
+                                elif isinstance(a, ast.Starred):
+                                    ok = False
+                                elif not (isinstance(a, ast.Constant) and isinstance(a.value, (int, float))) and not \
+                                        (isinstance(a, ast.Call) and isinstance(a.func, ast.Name) and a.func.id in ('int', 'float', 'round', 'len', 'min', 'max')) and not self.numeric(g, a):
+                                    ok = False
+                    ok = ok and n_sites > 0
+        self.fcache[key] = ok
+        return ok
+
+    def numeric(self, f, e):
+        t = self.p.type_of(f, e)
+        if t in ('int', 'float', 'bool'):
+            return True
+        if isinstance(e, ast.Attribute):
+            rt = self.p.type_of(f, e.value)
+            if isinstance(rt, Class) and self.numeric_field(rt, e.attr):
+                return True
+        if isinstance(e, ast.Constant) and isinstance(e.value, (int, float)):
+            return True
+        if isinstance(e, ast.BinOp) and isinstance(e.op, (ast.RShift, ast.LShift, ast.FloorDiv, ast.BitAnd, ast.BitOr)):
+            return True
+        if isinstance(e, ast.BinOp) and isinstance(e.op, (ast.Add, ast.Sub, ast.Mult, ast.Mod)) and self.numeric(f, e.left) and self.numeric(f, e.right):
+            return True
+        if isinstance(e, ast.Name) and e.id in f.params:
+            ann = next((a.annotation for a in f.node.args.args if a.arg == e.id), None)
+            if ann is not None and src_of(ann) in ('int', 'float'):
+                return True
+        if isinstance(e, ast.Call) and isinstance(e.func, ast.Name) and e.func.id in ('int', 'float', 'round', 'len', 'abs', 'ord'):
+            return True
+        if isinstance(e, ast.IfExp):
+            return self.numeric(f, e.body) and self.numeric(f, e.orelse)
+        if isinstance(e, ast.Name) and e.id in f.locals and e.id not in f.all_params() and (f.qualname, e.id) not in self.busy:
+            self.busy.add((f.qualname, e.id))
+            try:
+                oks = []
+                for n in f.body_nodes():
+                    if isinstance(n, ast.Assign):
+                        for t in n.targets:
+                            if isinstance(t, ast.Name) and t.id == e.id:
+                                oks.append(self.numeric(f, n.value))
+                            elif isinstance(t, (ast.Tuple, ast.List)) and any(isinstance(x, ast.Name) and x.id == e.id for x in t.elts):
+                                ix = [i for i, x in enumerate(t.elts) if isinstance(x, ast.Name) and x.id == e.id][0]
+                                if isinstance(n.value, (ast.Tuple, ast.List)) and len(n.value.elts) == len(t.elts):
+                                    oks.append(self.numeric(f, n.value.elts[ix]))
+                                    continue
+                                tgt = self.p.resolve_call(f, n.value) if isinstance(n.value, ast.Call) else None
+                                if isinstance(tgt, list) and len(tgt) == 1:
+                                    g = tgt[0]
+                                    rets = [r.value for r in g.body_nodes() if isinstance(r, ast.Return)]
+                                    oks.append(bool(rets) and all(isinstance(r, ast.Tuple) and len(r.elts) == len(t.elts) and self.numeric(g, r.elts[ix]) for r in rets))
+                                else:
+                                    oks.append(False)
+                    elif isinstance(n, (ast.AugAssign, ast.For)) and any(isinstance(x, ast.Name) and x.id == e.id for x in ast.walk(n.target)):
+                        oks.append(False)
+                return bool(oks) and all(oks)
+            finally:
+                self.busy.discard((f.qualname, e.id))
+        return False
+
+    def expr(self, f, e, depth=0):
+        p = self.p
+        if depth > 6:
+            return 'unknown'
+        if isinstance(e, ast.Constant):
+            if isinstance(e.value, str):
+                return 'free' if not any(c in e.value for c in '\n\r\x0b\x0c\x1c\x1d\x1e\x85  ') else 'text'
+            return 'free'
+        if isinstance(e, ast.JoinedStr):
+            return self.join(self.expr(f, v.value if isinstance(v, ast.FormattedValue) else v, depth + 1) for v in e.values)
+        if isinstance(e, ast.BinOp) and isinstance(e.op, ast.Add):
+            return self.join([self.expr(f, e.left, depth + 1), self.expr(f, e.right, depth + 1)])
+        if isinstance(e, ast.BinOp) and isinstance(e.op, ast.Mult):
+            a, b = e.left, e.right
+            if self.numeric(f, a) or (isinstance(a, ast.Call) and src_of(a.func) in ('max', 'min', 'len')):
+                a, b = b, a
+            return self.expr(f, a, depth + 1)
+        if isinstance(e, ast.BinOp) and isinstance(e.op, ast.Mod):
+            left = self.expr(f, e.left, depth + 1)
+            args = list(e.right.elts) if isinstance(e.right, ast.Tuple) else [e.right]
+            fmt = p.try_const(f, e.left)
+            kinds = [left]
+            if isinstance(fmt, str):
+                import re as _re
+                specs = _re.findall(r'%[-+ #0]*\d*(?:\.\d+)?([a-zA-Z%])', fmt)
+                specs = [x for x in specs if x != '%']
+                for sp, a in zip(specs, args):
+                    kinds.append('free' if sp in 'dfxXeEgGioc' else self.expr(f, a, depth + 1))
+            else:
+                kinds += ['free' if self.numeric(f, a) else self.expr(f, a, depth + 1) for a in args]
+            return self.join(kinds)
+        if isinstance(e, ast.IfExp):
+            return self.join([self.expr(f, e.body, depth + 1), self.expr(f, e.orelse, depth + 1)])
+        if isinstance(e, ast.BoolOp):
+            return self.join(self.expr(f, v, depth + 1) for v in e.values)
+        if isinstance(e, ast.Call):
+            fn = e.func
+            if isinstance(fn, ast.Name) and fn.id in ('str', 'format', 'repr', 'hex', 'chr') and e.args:
+                return 'free' if self.numeric(f, e.args[0]) else (self.expr(f, e.args[0], depth + 1) if fn.id == 'str' else 'unknown')
+            if isinstance(fn, ast.Attribute) and fn.attr in ('strip', 'lstrip', 'rstrip', 'lower', 'upper', 'title', 'rjust', 'ljust', 'zfill', 'center'):
+                return self.join([self.expr(f, fn.value, depth + 1)] + [self.expr(f, a, depth + 1) for a in e.args if not self.numeric(f, a)])
+            if isinstance(fn, ast.Attribute) and fn.attr == 'join' and e.args:
+                return self.join([self.expr(f, fn.value, depth + 1), self.elements(f, e.args[0], depth + 1)])
+            if isinstance(fn, ast.Attribute) and fn.attr == 'replace' and len(e.args) == 2:
+                return self.join([self.expr(f, fn.value, depth + 1), self.expr(f, e.args[1], depth + 1)])
+            if src_of(fn) == 're.sub' and len(e.args) >= 3:
+                return self.join([self.expr(f, e.args[1], depth + 1), self.expr(f, e.args[2], depth + 1)])
+            if isinstance(fn, ast.Attribute) and fn.attr == 'get' and e.args and src_of(fn.value).endswith('options'):
+                k = p.try_const(f, e.args[0])
+                if k in SINGLE_LINE_OPTIONS:
+                    return 'free'
+                return 'unknown'
+            tgt = p.resolve_call(f, e)
+            if isinstance(tgt, list) and tgt:
+                return self.join(self.func_returns(g) for g in tgt)
+            return 'unknown'
+        if isinstance(e, ast.Subscript) and src_of(e.value).endswith('options'):
+            k = p.try_const(f, e.slice)
+            return 'free' if k in SINGLE_LINE_OPTIONS else 'unknown'
+        if isinstance(e, ast.Attribute):
+            if e.attr in TEXT_ATTRS:
+                return 'text'
+            if e.attr == 'name':
+                return 'free'          # identifiers: the tokenizers accept no line break inside a name
+            return 'unknown'
+        if isinstance(e, ast.Name):
+            if e.id in f.locals and e.id not in f.all_params():
+                vals = p.local_assignments(f, e.id)
+                if vals and all(v is not None for v in vals):
+                    return self.join(self.expr(f, v, depth + 1) for v in vals)
+                # loop variable
+                for n in f.body_nodes():
+                    if isinstance(n, ast.For) and any(isinstance(t, ast.Name) and t.id == e.id for t in ast.walk(n.target)):
+                        it = n.iter
+                        if isinstance(it, ast.Call) and isinstance(it.func, ast.Name) and it.func.id == 'enumerate' and it.args:
+                            if isinstance(n.target, ast.Tuple) and src_of(n.target.elts[0]) == e.id:
+                                return 'free'
+                            it = it.args[0]
+                        if isinstance(it, ast.Call) and isinstance(it.func, ast.Attribute) and it.func.attr == 'splitlines':
+                            return 'free'       # the pieces between line breaks
+                        if isinstance(it, ast.Name) and it.id in f.all_params() or isinstance(it, ast.Attribute):
+                            return 'text'       # an element of a token list handed in from outside
+                        return self.elements(f, it, depth + 1)
+                return 'unknown'
+            if e.id in f.all_params():
+                return 'unknown'
+            cv = p.try_const(f, e)
+            if isinstance(cv, str):
+                return self.expr(f, ast.Constant(value=cv), depth + 1)
+            return 'unknown'
+        return 'unknown'
+
+    def elements(self, f, e, depth):
+        if isinstance(e, (ast.List, ast.Tuple)):
+            return self.join(self.expr(f, x, depth + 1) for x in e.elts) if e.elts else 'free'
+        if isinstance(e, ast.Name) and e.id in f.locals and e.id not in f.all_params():
+            vals = self.p.local_assignments(f, e.id)
+            kinds = []
+            if not vals or any(v is None for v in vals):
+                return 'unknown'
+            for v in vals:
+                kinds.append(self.elements(f, v, depth + 1))
+            for n in f.body_nodes():
+                if isinstance(n, ast.Call) and isinstance(n.func, ast.Attribute) and src_of(n.func.value) == e.id and n.func.attr in ('append', 'insert', 'extend'):
+                    kinds.append(self.expr(f, n.args[-1], depth + 1) if n.func.attr != 'extend' else self.elements(f, n.args[0], depth + 1))
+            return self.join(kinds)
+        return 'unknown'
 
 
 @rule('OWN-RAWPUSH', 'N', 'raw OutputStream.push (no newline handling) is called only with text that cannot contain a line break')
 def own_rawpush(p, res):
+    from .. import shape
     osc = p.cls('output_stream.OutputStream')
+    L = _Lines(p)
     for f in p.funcs.values():
+        defs = None
         for n in f.body_nodes():
             if not (isinstance(n, ast.Call) and isinstance(n.func, ast.Attribute) and n.func.attr == 'push' and len(n.args) == 1):
                 continue
             rt = p.type_of(f, n.func.value)
-            is_os = (isinstance(rt, Class) and (rt is osc or osc in p.mro(rt))) or (rt is None and src_of(n.func.value) in ('out', 'state.out', 'self'))
+            defs = shape.defs_of(f.node, params=f.params) if defs is None else defs
+            recv = src_of(shape.expand(n.func.value, defs))
+            is_os = (isinstance(rt, Class) and (rt is osc or osc in p.mro(rt))) or (rt is None and (recv in ('out', 'state.out', 'self') or recv.endswith('.out')))
             if not is_os:
                 continue
-            arg = src_of(n.args[0])
-            allowed = RAW_PUSH_OK.get(f.short, set())
-            if arg in allowed:
-                res.ok('%s: push(%s)' % (f.short, arg))
-            else:
+            if f.qualname == 'emmet.output_stream.OutputStream.push_newline':
+                res.ok('%s: the newline emitter itself (ACC-WRITER checks what it pushes)' % f.short)
+                continue
+            k = L.expr(f, n.args[0])
+            if k == 'free':
+                res.ok('%s: push(%s) cannot contain a line break' % (f.short, src_of(n.args[0])))
+            elif k == 'text':
                 res.bad(F('OWN-RAWPUSH', f, n, src_of(n),
                           'text is written with raw push(): a line break inside it bypasses newline/baseIndent/indent handling and the line/column bookkeeping; use push_string() for text that may span lines'))
+            else:
+                res.undecided('%s: %s' % (f.short, src_of(n)), 'not shown to be free of line breaks (nor positively text from outside)')
+    res.assumptions.append('option values named in SINGLE_LINE_OPTIONS are single-line strings (documented meaning of these options)')
     res.require_floor(18)
 
 
